@@ -313,6 +313,104 @@ func c13KeyCapacity(c *c13Ctx, ks c13KeySpec) {
 	c13ConcBodyKey(c, ks, writers, inbound, 1, 2, false)
 }
 
+// c13TwoSockets: the state of OTHER wrapped sockets. A first socket is wrapped, used and closed —
+// twice, as callers do (the client closes its packet conn on the reconnect path and the owner
+// closes it again) — then two more sockets with different keys are wrapped and used by two
+// threads at the same time, each through its own inner socket. Whatever the package keeps or
+// recycles across sockets, each inner socket must carry exactly the packets written to its
+// wrapper, under its wrapper's key (added after the independently seeded change C13-3).
+func c13TwoSockets(c *c13Ctx) {
+	keyX, keyB, keyC := c13KeySpec{7, -1}.bytes(), c13KeySpec{32, 0xff}.bytes(), c13KeySpec{5, -1}.bytes()
+	mk := func(name string, port int, key []byte) (net.PacketConn, *vnet.PacketConn) {
+		inner := vnet.NewPacketConn(name, port)
+		_ = inner.SetDeadline(time.Time{})
+		pc, err := WrapPacketConnSalamander(inner, key)
+		if err != nil {
+			c.fail("wrap: %v", err)
+			return nil, nil
+		}
+		return pc, inner
+	}
+	x, innerX := mk("inner-x", 3100, keyX)
+	if x == nil {
+		return
+	}
+	if _, err := x.WriteTo(c13Fill(20, 0x50), c13Addr(4100)); err != nil {
+		c.fail("WriteTo on the first socket: %v", err)
+	}
+	_ = x.Close()
+	_ = x.Close()
+	_ = innerX
+	b, innerB := mk("inner-b", 3101, keyB)
+	cc, innerC := mk("inner-c", 3102, keyC)
+	if b == nil || cc == nil {
+		return
+	}
+	type sock struct {
+		name  string
+		pc    net.PacketConn
+		inner *vnet.PacketConn
+		key   []byte
+		out   []c13Pkt
+		in    c13Pkt
+	}
+	socks := []*sock{
+		{name: "B", pc: b, inner: innerB, key: keyB, out: []c13Pkt{{id: "b1", payload: c13Fill(40, 0xB0), addr: c13Addr(4101)}, {id: "b2", payload: c13Fill(9, 0xB8), addr: c13Addr(4102)}},
+			in: c13Pkt{id: "vb", payload: c13Fill(33, 0x10), addr: c13Addr(5101)}},
+		{name: "C", pc: cc, inner: innerC, key: keyC, out: []c13Pkt{{id: "c1", payload: c13Fill(40, 0xC0), addr: c13Addr(4103)}, {id: "c2", payload: c13Fill(100, 0xC8), addr: c13Addr(4104)}},
+			in: c13Pkt{id: "vc", payload: c13Fill(33, 0x20), addr: c13Addr(5102)}},
+	}
+	var wg vsync.WaitGroup
+	got := make([]c13ReadRes, len(socks))
+	for i, s := range socks {
+		s.inner.Inject(c13RefWire(s.key, c13Salts[i], s.in.payload), s.in.addr)
+		wg.Add(2)
+		vsched.Go(func() {
+			defer wg.Done()
+			for _, p := range s.out {
+				if n, err := s.pc.WriteTo(p.payload, p.addr); err != nil || n != len(p.payload) {
+					c.fail("socket %s: WriteTo(%s, %d bytes) = (%d, %v)", s.name, p.id, len(p.payload), n, err)
+				}
+			}
+		})
+		vsched.Go(func() {
+			defer wg.Done()
+			buf := make([]byte, udpBufferSize)
+			n, addr, err := s.pc.ReadFrom(buf)
+			got[i] = c13ReadRes{append([]byte(nil), buf[:max(n, 0)]...), addr, err}
+		})
+	}
+	wg.Wait()
+	for i, s := range socks {
+		if len(s.inner.Sent) != len(s.out) {
+			c.fail("socket %s put %d datagrams on its inner socket for %d packets written", s.name, len(s.inner.Sent), len(s.out))
+		}
+		for j, w := range s.inner.Sent {
+			if j >= len(s.out) {
+				break
+			}
+			p := s.out[j]
+			dec, ok := c13RefOpen(s.key, w.Data)
+			if !ok || !bytes.Equal(dec, p.payload) || !c13SameAddr(w.Addr, p.addr) {
+				other := ""
+				for _, o := range socks {
+					if o == s {
+						continue
+					}
+					if d2, ok2 := c13RefOpen(o.key, w.Data); ok2 {
+						other = "; " + c13Describe(d2, o.out) + " of socket " + o.name + " under socket " + o.name + "'s key"
+					}
+				}
+				c.fail("socket %s: wire datagram %d (%d bytes to %v) is not packet %s written to it, under its own key%s", s.name, j, len(w.Data), w.Addr, p.id, other)
+			}
+		}
+		if got[i].err != nil || !bytes.Equal(got[i].data, s.in.payload) || !c13SameAddr(got[i].addr, s.in.addr) {
+			c.fail("socket %s: ReadFrom returned (%d bytes, %v, %v), expected packet %s intact from %v", s.name, len(got[i].data), got[i].addr, got[i].err, s.in.id, s.in.addr)
+		}
+		_ = s.pc.Close()
+	}
+}
+
 func c13Scenarios() []*explore.Scenario {
 	var cap []*explore.Scenario
 	for _, ks := range c13CapacityKeys {
@@ -321,6 +419,7 @@ func c13Scenarios() []*explore.Scenario {
 	}
 	return append(cap, []*explore.Scenario{
 		{Name: "2w2p-2r-preloaded", Quick: explore.Bounds{P: 2, FreeSwitch: true}, Thorough: explore.Bounds{P: 3, FreeSwitch: true}, Body: func(e *vsched.Exec) { c13Preloaded(&c13Ctx{e: e}) }},
+		{Name: "two-sockets-after-double-close", Quick: explore.Bounds{P: 2, FreeSwitch: true}, Thorough: explore.Bounds{P: 3, FreeSwitch: true}, Body: func(e *vsched.Exec) { c13TwoSockets(&c13Ctx{e: e}) }},
 		{Name: "1w2p-2r-late-inject", Quick: explore.Bounds{P: 2, FreeSwitch: true}, Thorough: explore.Bounds{P: 3, FreeSwitch: true}, Body: func(e *vsched.Exec) { c13LateInject(&c13Ctx{e: e}) }},
 	}...)
 }
@@ -342,11 +441,11 @@ func TestVerifC13RaceChild(t *testing.T) {
 	}
 	for i := 0; i < iters; i++ {
 		for j, body := range []func(*c13Ctx){c13Preloaded, c13LateInject,
-			func(c *c13Ctx) { c13KeyCapacity(c, c13CapacityKeys[0]) }, func(c *c13Ctx) { c13KeyCapacity(c, c13CapacityKeys[1]) }} {
+			func(c *c13Ctx) { c13KeyCapacity(c, c13CapacityKeys[0]) }, func(c *c13Ctx) { c13KeyCapacity(c, c13CapacityKeys[1]) }, c13TwoSockets} {
 			c := &c13Ctx{}
 			body(c)
 			if len(c.fails) > 0 {
-				fmt.Printf("C13FAIL %s: %s\n", []string{"preloaded", "late-inject", "key36", "key40"}[j], c.fails[0])
+				fmt.Printf("C13FAIL %s: %s\n", []string{"preloaded", "late-inject", "key36", "key40", "two-sockets"}[j], c.fails[0])
 				os.Exit(3)
 			}
 		}
